@@ -103,6 +103,21 @@ def strategy(tier):
                                'during': during,
                                'at_expiry': at_expiry}),
     )
+    # msgpack servers: the id of an ACK is whatever the client packed - ids
+    # that merely compare equal to an outstanding one (1.0, true), contain
+    # it, or cannot be looked up at all were never issued
+    odd = st.fixed_dictionaries({
+        'part': st.just('odd_id'), 'aio': st.booleans(),
+        'n_emits': st.integers(1, 3),
+        'ids': st.lists(st.sampled_from(['float', 'bool', 'list', 'dict',
+                                         'str', 'none', 'neg', 'bytes']),
+                        min_size=1, max_size=4),
+        'args': st.lists(st.sampled_from(['x', 1, None, True, 2.5, '']),
+                         max_size=2)})
+    return st.one_of(*([_main_strategy(big, op)] * 5 + [odd]))
+
+
+def _main_strategy(big, op):
     return st.fixed_dictionaries({
         'aio': st.booleans(),
         'coro_cb': st.booleans(),
@@ -118,7 +133,68 @@ KNOWN = set()
 KF_FORGED = 'forged-ack-fires-queue-manager-callback'
 
 
+def _odd_ids(case):
+    import msgpack
+    w = World(aio=case['aio'], namespaces=NSS, serializer='msgpack')
+    try:
+        sio = w.sio
+        labels = {'part': 'odd_id', 'aio': case['aio'], 'nontrivial': True}
+        t = w.open()
+        ci, _ = w.connect(t, '/')
+        c = w.clients[ci]
+        fired = []
+        ids = []
+        for n in range(case['n_emits']):
+            w.recv_all()
+            w.do(sio.emit('ev', n, to=c['sid'], namespace='/',
+                          callback=lambda *a, n=n: fired.append((n, a))))
+            pk = w.recv(t)
+            if len(pk) != 1 or type(pk[0]['id']) is not int:
+                raise Violation('emit-frame', repr(pk))
+            ids.append(pk[0]['id'])
+        for kind in case['ids']:
+            real = ids[0]
+            odd = {'float': float(real), 'bool': bool(real),
+                   'list': [real], 'dict': {'id': real}, 'str': str(real),
+                   'none': None, 'neg': -real, 'bytes': bytes([real % 256])
+                   }[kind]
+            if odd == real and type(odd) is int:
+                continue
+            w.h.swallowed[:] = []
+            w.send_raw(t, msgpack.dumps({'type': 3, 'nsp': '/', 'id': odd,
+                                         'data': ['forged'] +
+                                         list(case['args'])}))
+            w.h.settle()
+            if fired:
+                raise Violation('callback-for-id-never-issued',
+                                'an ACK with the id %r (%s) invoked the '
+                                'callback issued under id %r: %r'
+                                % (odd, type(odd).__name__, real, fired))
+            bad = [e for m_, e in w.h.swallowed
+                   if not isinstance(e, ValueError)]
+            if bad:
+                raise Violation('ack-raised', 'an ACK with the id %r (%s) '
+                                'is not ignored: %r' % (odd, type(
+                                    odd).__name__, bad[0]))
+            w.h.swallowed[:] = []
+            if w.recv_all().get(t):
+                raise Violation('ack-caused-traffic', kind)
+            labels['odd_id_' + kind] = True
+        for n, i in enumerate(ids):
+            w.send(t, wire.ACK, '/', i, ['real', n])
+        w.h.settle()
+        if fired != [(n, ('real', n)) for n in range(len(ids))]:
+            raise Violation('callback-missing', 'after ACKs with ids that '
+                            'were never issued, the real ones gave %r'
+                            % (fired,))
+        return labels
+    finally:
+        w.close()
+
+
 def check_case(case):
+    if case.get('part') == 'odd_id':
+        return _odd_ids(case)
     extra = {}
     if case.get('manager') == 'queue':
         from .. import core
